@@ -218,6 +218,7 @@ def gen_program(rng, cyclic=True, negation=True, ads=True, evidence=True, max_le
                 alias_val = not alias_val
             P["evidence"] = [(a, v) for a, v in P["evidence"] if a != at and a != (name, ())] + [(at, base), ((name, ()), alias_val)]
     _post_shapes(P, random.Random("post|" + repr((stmts, qs, P["evidence"]))), max_level, evidence, numeric, negation)
+    P.pop("_world", None)
     return P
 
 
@@ -253,6 +254,9 @@ def _post_shapes(P, r2, max_level, evidence=True, numeric=False, negation=True):
             P["evidence"] = P["evidence"] + [(("nb", ()), True)]          # nb is certainly true: consistent with anything
         elif not compl and not P["evidence"] and r2.random() < 0.4:
             P["evidence"] = [(("nb", ()), r2.random() < 0.5)]            # the fact is open: both values have probability > 0
+        elif not compl and P.get("_world") is not None and r2.random() < 0.5:
+            # the value nb has in the world the other evidence was sampled from: jointly consistent
+            P["evidence"] = P["evidence"] + [(("nb", ()), at not in P["_world"])]
     if numeric and r2.random() < 0.12 and len(P["consts"]) >= 2:
         ren = dict(zip(P["consts"][1:], ["1", "2.5"]))
         f = lambda at: (at[0], tuple(ren.get(x, x) for x in at[1]))
@@ -308,6 +312,8 @@ def add_evidence(P, rng, inconsistent=False):
         if all(e[0] != (p, args) for e in evs):
             evs.append(((p, args), val))
     P["evidence"] = evs
+    if not inconsistent:
+        P["_world"] = m     # the sampled world's true atoms (removed again by gen_program)
 
 
 def atom_s(at):
